@@ -79,6 +79,7 @@ pub fn run(ctx: &Ctx) -> Report {
 		// block-boundary and otherwise special scalars directly before each delimiter
 		if f == Family::Iri {
 			dom.extend(domains::special_scalar_texts().into_iter().filter(|t| fr.valid(Kind::RiRef, t)));
+			dom.extend(domains::well_known_scheme_texts().into_iter().filter(|t| fr.valid(Kind::RiRef, t)));
 		}
 		let shards = 64usize;
 		let r = run_shards(ctx, shards, |si| {
